@@ -6,25 +6,31 @@ From Restic Require Import Base.Prelude Model.C13m Proofs.C13p Gen.ParamsC13.
 Import C13m.
 Open Scope Z_scope.
 
-(* while its context is alive and its two goroutines are not wedged, the holder's newest lock file is
-   younger than R + poll + 3 D, for every event trace *)
-Theorem C13_alive_implies_fresh_partial : forall c acq tr s,
+(* MAIN: the code as it is now (monitor also takes refresh reports while it waits to hand over a
+   forced-refresh request, cfg.patched = true): for every event trace, while the context is alive the
+   holder's newest lock file is younger than R + poll + 3 D *)
+Theorem C13_alive_implies_fresh : forall c acq tr s,
+  cfg_ok c -> patched c = true -> 0 <= acq <= D c -> run c (init acq) tr = Some s ->
+  alive s = true -> now s - ftime s < bound c.
+Proof. exact patched_alive_implies_fresh. Qed.
+
+(* the two goroutines never end up blocked on each other *)
+Theorem C13_never_wedged : forall c tr s s0,
+  patched c = true -> stuck s0 = false -> run c s0 tr = Some s -> stuck s = false.
+Proof. intros c tr s s0 Hp Hs H. exact (run_patched_not_stuck c tr Hp s0 s Hs H). Qed.
+
+(* history (regression): the protocol before the fix of F-C13-1 (cfg.patched = false) satisfied the bound
+   only while not wedged, and could wedge: real constants, every operation <= 3 min, context alive with a
+   lock older than the stale timeout *)
+Theorem C13_unpatched_alive_implies_fresh_partial : forall c acq tr s,
   cfg_ok c -> 0 <= acq <= D c -> run c (init acq) tr = Some s ->
   alive s = true -> stuck s = false -> now s - ftime s < bound c.
 Proof. exact alive_implies_fresh. Qed.
 
-(* the code as it is can wedge (refresher blocked on `refreshed`, monitor blocked on `forceRefresh`):
-   real constants, every operation <= 3 min, context alive with a lock older than the stale timeout *)
-Theorem C13_alive_implies_fresh_refuted :
+Theorem C13_unpatched_refuted :
   exists s, run (mkCfg Rms pollms 180000 false) (init 200) wedge_trace = Some s /\
             alive s = true /\ stalems < now s - ftime s.
 Proof. exact unpatched_refuted. Qed.
-
-(* with the proposed repair the statement holds without the side condition *)
-Theorem C13_patched_alive_implies_fresh : forall c acq tr s,
-  cfg_ok c -> patched c = true -> 0 <= acq <= D c -> run c (init acq) tr = Some s ->
-  alive s = true -> now s - ftime s < bound c.
-Proof. exact patched_alive_implies_fresh. Qed.
 
 (* the bound stays below the stale timeout of the running code with room for clock skew *)
 Theorem C13_fresh_lt_stale : forall d skew p,
@@ -68,9 +74,10 @@ Theorem C13_model_samples_fresh : forall c acq tr s,
   sample_fresh c (mkSample (now s) (alive s) (Some (ftime s)) false) = true.
 Proof. exact model_samples_fresh. Qed.
 
-Print Assumptions C13_alive_implies_fresh_partial.
-Print Assumptions C13_alive_implies_fresh_refuted.
-Print Assumptions C13_patched_alive_implies_fresh.
+Print Assumptions C13_alive_implies_fresh.
+Print Assumptions C13_never_wedged.
+Print Assumptions C13_unpatched_alive_implies_fresh_partial.
+Print Assumptions C13_unpatched_refuted.
 Print Assumptions C13_fresh_lt_stale.
 Print Assumptions C13_params_margin.
 Print Assumptions C13_forced_success_iff.
